@@ -16,22 +16,22 @@ mkdir -p $OUT
 PAT="[A-Za-z0-9_/.-]*zz_seed[A-Za-z_0-9]*\.go\|[A-Za-z0-9_/.-]*/main\.go"
 if [ ! -f $OUT/confirmed.txt ]; then
   rm -rf $WT; git -C /repo worktree prune; git -C /repo worktree add -q --detach $WT HEAD || exit 2
-  DEMO=$(ls $SRC/demo/* | head -1)
+  DEMO=$(find $SRC/demo -type f -name "*.go" | head -1)
   RUN=$(python3 -c "import json;print(json.load(open('$SRC/meta.json'))['demo_cmd'])")
   # use only the `go test`/`go run` part of the demo command
   GOCMD=$(echo "$RUN" | grep -o "go \(test\|run\) .*" | tail -1 | sed 's/ 2>&1.*//; s/ |.*//; s/   *(.*//')
   echo "cmd: $GOCMD" > $OUT/confirm.log
-  for f in $SRC/demo/*; do d=$(head -6 $f | grep -m1 -io "$PAT" | head -1); [ -z "$d" ] && continue; d=${d#/}; mkdir -p $WT/$(dirname $d); cp $f $WT/$d; echo "demo $f -> $d" >> $OUT/confirm.log; done
+  for f in $(find $SRC/demo -type f -name "*.go"); do d=$(head -6 $f | grep -m1 -io "$PAT" | head -1); [ -z "$d" ] && continue; d=${d#/}; mkdir -p $WT/$(dirname $d); cp $f $WT/$d; echo "demo $f -> $d" >> $OUT/confirm.log; done
   (cd $WT && timeout 600 bash -c "$GOCMD") > $OUT/demo_without.txt 2>&1; R0=$?
   (cd $WT && git apply $SRC/patch.diff) || { echo "patch does not apply" >> $OUT/confirm.log; }
   (cd $WT && timeout 600 bash -c "$GOCMD") > $OUT/demo_with.txt 2>&1; R1=$?
   PK=$(cd $WT && git diff --name-only | grep "\.go$" | xargs -n1 dirname | sort -u | sed 's#^#./#')
-  for f in $SRC/demo/*; do d=$(head -6 $f | grep -m1 -io "$PAT" | head -1); [ -z "$d" ] && continue; rm -f $WT/${d#/}; done
+  for f in $(find $SRC/demo -type f -name "*.go"); do d=$(head -6 $f | grep -m1 -io "$PAT" | head -1); [ -z "$d" ] && continue; rm -f $WT/${d#/}; done
   (cd $WT && go build $PK && timeout 900 go test -mod=mod -vet=off -count=1 $PK) > $OUT/pkg_tests.txt 2>&1; R2=$?
   echo "demo without change exit=$R0 (want 0); with change exit=$R1 (want !=0); package tests exit=$R2 ($(grep -c '^ok' $OUT/pkg_tests.txt) ok, $(grep -c '^FAIL\|^---' $OUT/pkg_tests.txt) fail lines)" | tee -a $OUT/confirm.log
   git -C /repo worktree remove --force $WT; rm -rf $WT
   if [ $R0 -eq 0 ] && [ $R1 -ne 0 ]; then echo confirmed > $OUT/confirmed.txt; else echo "NOT CONFIRMED"; fi
-  cp $SRC/patch.diff $SRC/meta.json $OUT/; mkdir -p $OUT/demo; cp $SRC/demo/* $OUT/demo/
+  cp $SRC/patch.diff $SRC/meta.json $OUT/; mkdir -p $OUT/demo; cp -r $SRC/demo/. $OUT/demo/
 fi
 # run the checks against HEAD + patch
 rm -rf $WT; git -C /repo worktree prune; git -C /repo worktree add -q --detach $WT HEAD || exit 2
